@@ -5,6 +5,7 @@ import Cjet.Lemmas.WsMachine
 import Cjet.Lemmas.WsSend
 import Cjet.Lemmas.WsDispatch
 import Cjet.Lemmas.Base64
+import Cjet.Lemmas.WsHandshake
 /-!
 # C12 — the WebSocket endpoint follows RFC 6455
 
@@ -124,6 +125,9 @@ theorem header_invalid_refused (c : Conf) (hbuf : 8 ≤ c.bufSize) (a : Nat) (s 
   rw [readMaskOrPayload_invalid c a _ hinv, run_closed c a _ rest rfl]
   simp [seqRun]
 
+example : (run exampleConf 0 {} (wireHeader true 0 opPing true .ext16 126 ++ [1, 2, 3])).2.2 =
+    handleError exampleConf closeProtocolError := by decide +kernel
+
 /-- The table of header-level errors the property names: an unmasked client frame, a reserved bit
     without a negotiated extension, a reserved opcode (3-7, 11-15), a fragmented control frame, a
     control frame longer than 125 bytes — each makes `is_frame_header_invalid` true, so by
@@ -185,6 +189,9 @@ theorem oversize_payload_error_handler (c : Conf) (hbuf : 8 ≤ c.bufSize) (a : 
     simp only [feed, hp1, hpos, if_true, seqRun_nil]
     rw [run_toomuch c a _ rest (by simp) (by simp only [St.want]; omega)]
 
+example : (run exampleConf 0 {} (wireHeader true 0 opText true .ext16 600 ++ [1, 2, 3, 4] ++ [9])).2.2 =
+    errorHandler exampleConf := by decide +kernel
+
 /-- **Segmentation independence.**  However the byte stream is cut into pieces, the machine ends in the
     same state with the same unconsumed bytes and has performed the same actions as on the whole stream. -/
 theorem segmentation_independent (c : Conf) (hbuf : 1 ≤ c.bufSize) (a : Nat) (s : St) (hs : s.phase = .header)
@@ -210,6 +217,8 @@ theorem unmask_fast_eq_bytewise (align : Nat) (key buf : Bytes) :
 theorem unmask_fast_eq_bytewise_any_word (word : Nat) (hw0 : 0 < word) (hw : word % 4 = 0) (align : Nat)
     (key buf : Bytes) : unmaskPayload word align key buf = xorMask key buf :=
   unmaskPayload_eq_xorMask word hw0 hw align key buf
+
+example : unmaskPayload 4 1 [1, 2, 3, 4] [0, 0, 0, 0, 0, 0] = [1, 2, 3, 4, 1, 2] := by decide
 
 example : unmaskPayload 8 3 [1, 2, 3, 4] [0, 0, 0, 0, 0, 0, 0, 0, 0, 0, 0, 0, 0] = [1, 2, 3, 4, 1, 2, 3, 4, 1, 2, 3, 4, 1] := by
   decide
@@ -253,6 +262,9 @@ theorem decode_encode (c : Conf) (hcl : c.isServer = false) (hw0 : 0 < c.word) (
     (minimal_fits _ hl64) hlen hv rest]
   simp [frameOutcome, hcl]
 
+example : (run { exampleConf with isServer := false, cbs := fullCallbacks .ok } 0 {}
+    (sendFrame true 8 0 [] opText [104, 105] ++ [0x81])).2.2 = [Action.textMessage [104, 105]] := by decide +kernel
+
 /-- A frame built by `send_frame` in client mode (masked with any 4 byte key, payload at any alignment),
     read by the server-side machine: the dispatcher receives the original payload. -/
 theorem decode_encode_masked (c : Conf) (hw0 : 0 < c.word) (hw : c.word % 4 = 0)
@@ -279,6 +291,9 @@ theorem decode_encode_masked (c : Conf) (hw0 : 0 < c.word) (hw : c.word % 4 = 0)
     (minimal_fits _ hl64) hlen hv rest]
   simp [frameOutcome]
 
+
+example : (run exampleConf 5 {} (sendFrame false 8 3 [9, 8, 7, 6] opText [104, 105, 33])).2.2 =
+    [Action.textMessage [104, 105, 33]] := by decide +kernel
 
 /-- A ping with payload `p`, `|p| ≤ 125`, (in any fragmentation state) is answered by exactly one frame:
     the pong `8a len p` — FIN, unmasked, minimal length, identical payload — and nothing is closed. -/
@@ -321,10 +336,16 @@ theorem close_code_unmasked (c : Conf) (hs : c.isServer = true) (fl : Flags) (hm
     (frameOutcome c fl payload).actions = handleError c closeProtocolError := by
   simp [frameOutcome, hs, hm]
 
+example : (frameOutcome exampleConf { fin := true, opcode := opText, mask := false } [104]).actions =
+    [Action.write true [0x88, 2, 0x03, 0xea], Action.closeConn, Action.onError] := by decide
+
 /-- a reserved bit without a negotiated extension → 1002 -/
 theorem close_code_rsv (c : Conf) (hx : c.extAccepted = false) (f : Flags) (hr : f.rsv ≠ 0) (p : Bytes) :
     (wsHandleFrame c f p).refusedWith c closeProtocolError := by
   simp [wsHandleFrame, rsvCheck, hr, hx, refuse, HandleResult.refusedWith]
+
+example : (wsHandleFrame exampleConf { fin := true, rsv := 4, opcode := opText, mask := true } [104]).refusedWith exampleConf
+    closeProtocolError := close_code_rsv _ rfl _ (by decide) _
 
 /-- a reserved opcode (3-7, 11-15) → 1002, with or without FIN, in any fragmentation state -/
 theorem close_code_reserved_opcode (c : Conf) (f : Flags)
@@ -343,6 +364,9 @@ theorem close_code_reserved_opcode (c : Conf) (f : Flags)
       (repeat' split) <;> simp_all <;> omega
 
 
+example : (wsHandleFrame exampleConf { fin := true, opcode := 11, mask := true } []).actions =
+    handleError exampleConf closeProtocolError := by decide
+
 /-- a fragmented control frame (FIN = 0, opcode ≥ 8) → 1002 -/
 theorem close_code_fragmented_control (c : Conf) (hx : c.extAccepted = false) (f : Flags) (hfin : f.fin = false)
     (hop : f.opcode ≥ opClose) (p : Bytes) :
@@ -350,6 +374,9 @@ theorem close_code_fragmented_control (c : Conf) (hx : c.extAccepted = false) (f
   by_cases hr : f.rsv = 0
   · simp [wsHandleFrame, rsvCheck, hr, hfin, hop, refuse, HandleResult.refusedWith]
   · exact close_code_rsv c hx f hr p
+
+example : (wsHandleFrame exampleConf { fin := false, opcode := opPing, mask := true } [1]).actions =
+    handleError exampleConf closeProtocolError := by decide
 
 /-- the dispatcher itself also refuses a ping or pong payload above 125 with 1002 -/
 theorem close_code_ping_pong_too_long (c : Conf) (f : Flags) (hfin : f.fin = true) (hrsv : f.rsv = 0)
@@ -362,6 +389,9 @@ theorem close_code_ping_pong_too_long (c : Conf) (f : Flags) (hfin : f.fin = tru
     simp [wsHandleFrame, rsvCheck, fragStep, dispatchOpcode, refuse, HandleResult.refusedWith, hp,
       opPing, opPong, opClose, opBinary, opText, opContinuation]
 
+example : (wsHandleFrame exampleConf { fin := true, opcode := opPong, mask := true } (List.replicate 126 0)).actions =
+    handleError exampleConf closeProtocolError := by decide
+
 /-- a close frame with a one byte payload → 1002 -/
 theorem close_code_close_length_one (c : Conf) (f : Flags) (hfin : f.fin = true) (hrsv : f.rsv = 0)
     (hop : f.opcode = opClose) (b : UInt8) :
@@ -371,6 +401,9 @@ theorem close_code_close_length_one (c : Conf) (f : Flags) (hfin : f.fin = true)
   subst hfin hrsv hop
   simp [wsHandleFrame, rsvCheck, fragStep, dispatchOpcode, refuse, HandleResult.refusedWith,
     opPing, opPong, opClose, opBinary, opText, opContinuation]
+
+example : (wsHandleFrame exampleConf { fin := true, opcode := opClose, mask := true } [3]).actions =
+    handleError exampleConf closeProtocolError := by decide
 
 /-- the valid status codes are exactly 1000-1003, 1007-1011 and 3000-4999 -/
 theorem status_code_ranges (code : Nat) :
@@ -395,6 +428,9 @@ theorem close_code_invalid_status (c : Conf) (f : Flags) (hfin : f.fin = true) (
   · simp [wsHandleFrame, rsvCheck, fragStep, dispatchOpcode, refuse, HandleResult.refusedWith,
       opPing, opPong, opClose, opBinary, opText, opContinuation, hlen, hbad, h3]
 
+example : (wsHandleFrame exampleConf { fin := true, opcode := opClose, mask := true } [0x03, 0xed]).actions =
+    handleError exampleConf closeProtocolError ∧ isStatusCodeInvalid 1005 = true := by decide
+
 /-- a close frame whose reason is not valid UTF-8 → 1007 -/
 theorem close_code_invalid_utf8 (c : Conf) (f : Flags) (hfin : f.fin = true) (hrsv : f.rsv = 0)
     (hop : f.opcode = opClose) (p : Bytes) (hlen : p.length > 2) (hutf : c.utf8Valid (p.drop 2) = false) :
@@ -404,6 +440,9 @@ theorem close_code_invalid_utf8 (c : Conf) (f : Flags) (hfin : f.fin = true) (hr
   subst hfin hrsv hop
   simp [wsHandleFrame, rsvCheck, fragStep, dispatchOpcode, refuse, HandleResult.refusedWith,
     opPing, opPong, opClose, opBinary, opText, opContinuation, hlen, hutf]
+
+example : (wsHandleFrame exampleConf { fin := true, opcode := opClose, mask := true } [0x03, 0xe8, 0xc0, 0x80]).actions =
+    handleError exampleConf closeUnsupportedData := by decide
 
 /-- a well-formed close frame (empty, or valid code + valid reason, at most 125 bytes) is answered by
     the close frame 1000, the connection is released and `close_received` gets the peer's code -/
@@ -435,6 +474,9 @@ theorem close_handshake (c : Conf) (f : Flags) (hfin : f.fin = true) (hrsv : f.r
     cases c.cbs.close <;> rfl
 
 
+example : (wsHandleFrame exampleConf { fin := true, opcode := opClose, mask := true } [0x03, 0xe9, 98, 121, 101]).actions =
+    [Action.write true [0x88, 2, 0x03, 0xe8], Action.closeConn, Action.closeReceived 1001] := by decide
+
 /-! ## The daemon's callback set (websocket_peer.c) -/
 
 /-- the generated facts about `init_websocket_peer` agree with `daemonCallbacks` -/
@@ -459,6 +501,9 @@ theorem close_code_binary_message (c : Conf) (parseOk : Bytes → Bool) (hc : c.
   simp [wsHandleFrame, rsvCheck, fragStep, dispatchOpcode, refuse, HandleResult.refusedWith, hc, daemonCallbacks,
     opPing, opPong, opClose, opBinary, opText, opContinuation]
 
+example : (wsHandleFrame exampleConf { fin := true, opcode := opBinary, mask := true } [1, 2]).actions =
+    handleError exampleConf closeUnsupported := by decide
+
 /-- a text message: the payload is handed to the JSON-RPC layer exactly once; if that layer accepts it
     the connection stays open and nothing is written by the WebSocket layer; if it rejects it the
     connection ends with close frame 1011 -/
@@ -477,6 +522,10 @@ theorem text_message_dispatch (c : Conf) (parseOk : Bytes → Bool) (hc : c.cbs 
     simp [frameOutcome, hs, payloadResult, wsHandleFrame, rsvCheck, fragStep, dispatchOpcode, hc, daemonCallbacks, hp,
       opPing, opPong, opClose, opBinary, opText, opContinuation]
 
+example : (frameOutcome exampleConf { fin := true, opcode := opText, mask := true } [123, 125]).actions = [Action.textMessage [123, 125]] ∧
+    (frameOutcome exampleConf { fin := true, opcode := opText, mask := true } [63]).actions =
+      Action.textMessage [63] :: handleError exampleConf closeInternalError := by decide
+
 /-- **Fragmented data messages are processed or refused with a close frame — never anything else.**
     For every callback set: a fragment (FIN = 0 data frame, or a continuation frame) either reaches
     `text_frame_received` / `binary_frame_received` with its payload, or the only thing that happens is
@@ -492,6 +541,9 @@ theorem data_fragments_processed_or_refused (c : Conf) (f : Flags)
   · rw [h]; exact fragOutcome_refuse1002 c p f'
   · rw [h]; exact dispatch_continuation c f' p h0
 
+example : (wsHandleFrame { exampleConf with cbs := fullCallbacks .ok } { fin := false, opcode := opText, mask := true } [104]).actions =
+    [Action.textFrame [104] false] := by decide
+
 /-- With the daemon's callback set (no fragment handlers) every fragment is refused with a close frame:
     1002 for a protocol error, 1003 otherwise. -/
 theorem daemon_fragments_refused (c : Conf) (parseOk : Bytes → Bool) (hc : c.cbs = daemonCallbacks parseOk)
@@ -506,6 +558,65 @@ theorem daemon_fragments_refused (c : Conf) (parseOk : Bytes → Bool) (hc : c.c
 example : (wsHandleFrame { cbs := daemonCallbacks (fun _ => true), utf8Valid := fun _ => true, bufSize := 512 }
     { fin := false, opcode := opText, mask := true } [104]).actions =
     [Action.write true [0x88, 2, 0x03, 0xeb], Action.closeConn, Action.onError] := by decide
+
+/-! ## The upgrade decision -/
+
+/-- **A valid upgrade is answered with 101 and the correct accept digest.**  For every request for a
+    target the handler is registered for, with any headers in any order and number — provided every
+    `Sec-WebSocket-Key` value has 24 bytes and every `Sec-WebSocket-Version` value is "13" (`hdrOk`) —
+    GET, HTTP/1.1 or later, `Upgrade` + `Connection: Upgrade` (http-parser's `upgrade` flag), and a
+    sub-protocol list that is absent or contains "jet": the one and only action is writing the 101
+    response with `Sec-WebSocket-Accept: base64(sha1(key ++ GUID))` and `Sec-WebSocket-Protocol: jet`,
+    and the connection is in frame mode afterwards. -/
+theorem handshake_valid_101 (c : Conf) (hok : c.sendOk = true) (target path : Bytes)
+    (hpre : target.isPrefixOf path = true) (hdrs : List (Bytes × Bytes)) (hall : ∀ x ∈ hdrs, hdrOk x)
+    (major minor : Nat) (hver : major > 1 ∨ (major = 1 ∧ minor ≥ 1))
+    (hproto : (hdrFold hsAfterRequestLine hdrs).protocolRequested = true → (hdrFold hsAfterRequestLine hdrs).found = true) :
+    (Hs.run c target {} (reqEvents path hdrs httpGet major minor true)).1.phase = .upgraded ∧
+    (Hs.run c target {} (reqEvents path hdrs httpGet major minor true)).2 =
+      [Action.write true (switchResponse ++ Base64.encode (Sha1.sha1 (hdrFold hsAfterRequestLine hdrs).secKey) ++
+        switchProtocol ++ subProtocol ++ switchEnd)] := by
+  rw [run_valid_request c hok target path hpre hdrs hall major minor hver hproto]
+  exact ⟨rfl, rfl⟩
+
+/-- the digest is over the value of the last `Sec-WebSocket-Key` header followed by the GUID -/
+theorem handshake_accept_key (pre post : List (Bytes × Bytes)) (n v : Bytes) (hk : hdrKind n = .key)
+    (hpost : ∀ x ∈ post, hdrKind x.1 ≠ .key) :
+    (hdrFold hsAfterRequestLine (pre ++ (n, v) :: post)).secKey = v ++ wsGuid :=
+  hdrFold_secKey_last hsAfterRequestLine pre post n v hk hpost
+
+/-- RFC 6455 §1.3 sample request, headers in another order and other letter case: 101 and
+    `s3pPLMBiTxaQ9kYGzzhZRbK+xOo=` -/
+example :
+    (Hs.run exampleConf "/api/jet/".toUTF8.toList {}
+      (reqEvents "/api/jet/".toUTF8.toList
+        [("sec-websocket-VERSION".toUTF8.toList, "13".toUTF8.toList),
+         ("Host".toUTF8.toList, "x".toUTF8.toList),
+         ("Sec-WebSocket-Protocol".toUTF8.toList, "chat ,jet".toUTF8.toList),
+         ("SEC-WEBSOCKET-KEY".toUTF8.toList, "dGhlIHNhbXBsZSBub25jZQ==".toUTF8.toList)] httpGet 1 1 true)).2 =
+    [Action.write true (switchResponse ++ "s3pPLMBiTxaQ9kYGzzhZRbK+xOo=".toUTF8.toList ++ switchProtocol ++ subProtocol ++ switchEnd)] := by
+  decide +kernel
+
+/-- What the code does with requests the RFC tells a server to refuse: a key of the wrong length, a
+    version other than 13, a sub-protocol list without "jet", a method other than GET, HTTP/1.0, a
+    missing `Upgrade` → `400 Bad Request` and the connection is released; an unknown target → 404.
+    (A request with *no* key or version header at all is still answered 101 — the digest is then over
+    60 zero bytes; RFC 6455 §4.2.1 deviation, outside the property's statement.) -/
+theorem handshake_refusals :
+    let t := "/api/jet/".toUTF8.toList
+    let bad := [Action.write true httpBadRequestResponse, Action.closeConn, Action.onError]
+    let key := ("Sec-WebSocket-Key".toUTF8.toList, "dGhlIHNhbXBsZSBub25jZQ==".toUTF8.toList)
+    (Hs.run exampleConf t {} (reqEvents t [("Sec-WebSocket-Key".toUTF8.toList, "short".toUTF8.toList)] httpGet 1 1 true)).2 = bad ∧
+    (Hs.run exampleConf t {} (reqEvents t [key, ("Sec-WebSocket-Version".toUTF8.toList, "8".toUTF8.toList)] httpGet 1 1 true)).2 = bad ∧
+    (Hs.run exampleConf t {} (reqEvents t [key, ("Sec-WebSocket-Protocol".toUTF8.toList, "chat, jetx".toUTF8.toList)] httpGet 1 1 true)).2 = bad ∧
+    (Hs.run exampleConf t {} (reqEvents t [key] 3 1 1 true)).2 = bad ∧
+    (Hs.run exampleConf t {} (reqEvents t [key] httpGet 1 0 true)).2 = bad ∧
+    (Hs.run exampleConf t {} (reqEvents t [key] httpGet 1 1 false)).2 = bad ∧
+    (Hs.run exampleConf t {} (reqEvents "/other".toUTF8.toList [key] httpGet 1 1 true)).2 =
+      [Action.write true httpNotFoundResponse, Action.closeConn] ∧
+    (Hs.run exampleConf t {} (reqEvents t [] httpGet 1 1 true)).2 =
+      [Action.write true (upgradeResponse (List.replicate 60 0))] := by
+  decide +kernel
 
 /-! ## base64, SHA-1, the accept value -/
 
